@@ -492,7 +492,12 @@ func vfC16Segments(seedCase *vfSerCase, ctx *vfCtx) *vfViolation {
 			}
 			seq++
 			images++
-			if v := vfCheckCrashImage(root, seq, img, &conf, undamaged, segDocs[1], everAdded, "segment 2 of 3: "+what); v != nil {
+			if seq%4 == 0 {
+				vfImageConcurrentSearches = 4
+			}
+			v := vfCheckCrashImage(root, seq, img, &conf, undamaged, segDocs[1], everAdded, "segment 2 of 3: "+what)
+			vfImageConcurrentSearches = 0
+			if v != nil {
 				return v
 			}
 		}
@@ -557,9 +562,13 @@ func vfC16Segments(seedCase *vfSerCase, ctx *vfCtx) *vfViolation {
 		}
 		if damage >= 4 {
 			seq++
-			if v := vfCheckCrashImage(root, seq, img, &conf, good, map[uint32]*vfStoreDoc{}, ever, fmt.Sprintf("seven segments, %d of them damaged", damage)); v != nil {
+			vfImageConcurrentSearches = 8
+			v := vfCheckCrashImage(root, seq, img, &conf, good, map[uint32]*vfStoreDoc{}, ever, fmt.Sprintf("seven segments, %d of them damaged", damage))
+			vfImageConcurrentSearches = 0
+			if v != nil {
 				return v
 			}
+			ctx.Class("concurrent_first_searches_over_damaged_segments")
 			images++
 			ctx.Class("many_damaged_segments")
 		}
